@@ -35,6 +35,8 @@ def parse_script(script_text, start_line_number=1):
     line_continuation = []
     function_def = None
     function_label_def_depth = None
+    function_line = None
+    function_line_number = None
     label_defs = []
     label_index = 0
     for ix_line_part, line_part in enumerate(lines):
@@ -89,6 +91,8 @@ def parse_script(script_text, start_line_number=1):
 
             # Add the function definition statement
             function_label_def_depth = len(label_defs)
+            function_line = line
+            function_line_number = start_line_number + ix_line
             function_def = {
                 'function': {
                     'name': match_function_begin.group('name'),
@@ -406,6 +410,10 @@ def parse_script(script_text, start_line_number=1):
         def_key = next(iter(label_def))
         def_ = label_def[def_key]
         raise BareScriptParserError(f"Missing end{def_key} statement", def_['line'], 1, def_['lineNumber'])
+
+    # Dangling function definition?
+    if function_def is not None:
+        raise BareScriptParserError('Missing endfunction statement', function_line, 1, function_line_number)
 
     return script
 
